@@ -238,7 +238,7 @@ def corr(case, impl, model):
         if x[0] != y[0] or x[1] != y[1] or x[2] != y[2]:
             return 'step %d: implementation %s / model %s' % (n, ';'.join(x[:3]), ';'.join(y[:3]))
         ci, cm = x[3], y[3]
-        if len(ci) != len(cm) or any(cm[k:k + 2] != '??' and cm[k:k + 2] != ci[k:k + 2] for k in range(0, len(cm), 2)):
+        if ci != cm and (len(ci) != len(cm) or any(cm[k:k + 2] != '??' and cm[k:k + 2] != ci[k:k + 2] for k in range(0, len(cm), 2))):
             return 'step %d: allocation contents %s / model %s' % (n, ci, cm)
     if len(a) != len(b):
         return 'length %d vs %d' % (len(a), len(b))
@@ -307,6 +307,44 @@ def exhaustive_cases(maxlen, alpha, nops):
     return out
 
 
+BOUNDARY = [0, 1, 7, 8, 15, 16, 17, 31, 32, 33, 63, 64, 65, 127, 128, 129, 255, 256, 257, 1023, 1024, 1025, 4095, 4096, 4097]
+
+
+def boundary_cases(rng, thorough=False):
+    """lengths around every power of two / plausible local buffer size, for the piece of a formatted write (literal, %s,
+    the String itself) at positions len, len-1, 0 (and behind the end), each followed by a second write at the returned
+    position, and for the arguments of assign / concat / append / resize / self-concat / copy"""
+    out = []
+    txt = lambda n: rnd_str(rng, ALPHA3, n)
+    for L in BOUNDARY:
+        lean = L >= 1023 and not thorough      # quick tier: the long lengths only in the main variants (driver time)
+        inits = [5] if lean else [0, 5] + ([L] if thorough and L > 5 else [])
+        for k in inits:
+            s0 = txt(k)
+            poss = [k] if lean else sorted({k, max(0, k - 1), 0} | ({k + 1, k + 3} if thorough else set()))
+            for pos in poss:
+                for kind in 'SL':
+                    if kind == 'L' and L == 0:
+                        continue
+                    t = txt(L)
+                    nxt = pos + L
+                    out.append('%s|f%d:%s%s f%d:L21 s l f%d:D-7,S%s s l' % (hx(s0), pos, kind, hx(t), nxt, nxt + 1, hx(txt(2))))
+                # two pieces in one format: a literal up to the boundary, then %s
+                out.append('%s|f%d:L2e,S%s,L2e s l' % (hx(s0), pos, hx(txt(L))))
+        sL = txt(L)
+        out.append('%s|f%d:X s l f%d:L21 s l' % (hx(sL), L, 2 * L))          # the String itself, |s| = L
+        out.append('%s|f0:X,X s l' % hx(sL))
+        hh = '' if lean else ' h'
+        out.append('|a%s s l%s c%s s l' % (hx(sL), hh, hx(txt(L))))
+        out.append('%s|c%s s l p%s s l%s' % (hx(txt(1)), hx(sL), hx(txt(L)), hh))
+        out.append('%s|C s l A s y s l%s' % (hx(sL), hh))
+        out.append('%s|z%d s l z%d s l c%s s l z%d s l' % (hx(sL), L + 1, max(0, L - 1), hx(txt(3)), L))
+        out.append('|z%d l c%s s z%d s l z0 l' % (L, hx(sL), L))
+        if L:
+            out.append('%s|r%s s l m%s' % (hx(txt(2) + sL + txt(2)), hx(sL), hx(sL[:L - 1])))
+    return out
+
+
 MENU = ['f1:X', 'a', 'a6162', 'c', 'c61', 'c6261', 'C', 'A', 'z0', 'z1', 'z3', 'r61', 'r6162', 'r', 'R', 'f1:S62', 'f0:D7', 'f9:L7a', 'y']
 
 
@@ -328,7 +366,9 @@ def run(ctx):
                        'pieces at positions inside, at and beyond the end) over alphabets of 1, 2, 3 letters (so that repeated and overlapping '
                        'occurrences are frequent), awkward bytes (0x01, %, 0x7f..0xff, the allocator poison values) and strings up to 200 bytes; '
                        'rem/mem arguments are drawn per class: empty, equal to the target, at the start, in the middle, at the end, '
-                       'overlapping a second occurrence, absent (class counts in coverage.classes); the String itself as argument of '
+                       'overlapping a second occurrence, absent (class counts in coverage.classes); a boundary stream with piece / argument '
+                       'lengths 0,1,7,8,15..17,31..33,63..65,127..129,255..257,1023..1025,4095..4097 for formatted writes (literal, %s, the String '
+                       'itself; at len, len-1, 0; followed by a write at the returned position) and for assign/concat/append/resize/rem/copy; the String itself as argument of '
                        'assign/concat/append/rem/mem/cmp/eq; new without arguments; copies; plus every rem/mem over all strings <= 3 '
                        'of {a,b} (quick) / <= 4 with two removals (thorough) and every sequence of 2 (quick) / 3 (thorough) operations of a 19-entry menu from every string <= 2 / <= 3. A case is non-trivial when a rem deleted a non-empty '
                        'proper part of the string or a formatted write cut it strictly inside; distinct = distinct implementation transcripts')
@@ -382,10 +422,14 @@ def run(ctx):
     ex = exhaustive_cases(3, ALPHA3[:2], 1) if quick else exhaustive_cases(4, ALPHA3[:2], 2)
     for i in range(0, len(ex), 4000):
         d.feed(ex[i:i + 4000])
+    bd = boundary_cases(ctx.rng, thorough=not quick)
+    for i in range(0, len(bd), 200):
+        d.feed(bd[i:i + 200])
     ex2 = exhaustive_ops(2, 2) if quick else exhaustive_ops(3, 3)
     for i in range(0, len(ex2), 4000):
         d.feed(ex2[i:i + 4000])
-    ctx.cov['classes'] = dict(sorted(stats.items()), exhaustive_rem_cases=len(ex), exhaustive_op_sequences=len(ex2))
+    ctx.cov['classes'] = dict(sorted(stats.items()), exhaustive_rem_cases=len(ex), exhaustive_op_sequences=len(ex2),
+                              boundary_length_cases=len(bd))
 
     if not quick:
         # the same stream under AddressSanitizer (exact allocations, no canaries)
